@@ -98,6 +98,20 @@ TABLE = [
      'releases the semaphore',
      {'config': cfg(procs=3, threads=False, putlocks=True),
       'ops': [['apply', ['id'], 2, {'unpicklable': True}, True]]}),
+    ('D25-terminated-with-result-in-flight', 'C01', 'sim', 'open', None,
+     'C01/terminated-with-result-in-flight',
+     'terminate_job(pid) on a worker that runs job B while the result of job A, '
+     'which it had finished before, is still in flight: when the worker is reaped '
+     'before the result handler consumes that result, A is failed with Terminated '
+     'as well (its real result is then ignored) - the terminated path of '
+     '_join_exited_workers has no grace period for results already in the pipe, '
+     'unlike the lost-worker path',
+     {'config': cfg(procs=3, threads=False, putlocks=True, timeout=3, soft=20,
+                    allow=['tjob-result-in-flight']),
+      'ops': [['apply', ['affine', 1, -4], 0, {}, True], ['take', 4],
+              ['deliver', 5], ['finish', 1],
+              ['apply', ['affine', 1, -4], 0, {}, True], ['take', 1],
+              ['tjob', 1, 9], ['tick']]}),
     # ---- fixed (regressions; suppress nothing) -----------------------------------
     ('D5-scan-crash', 'C05', 'sim', 'fixed', '933cb2f',
      'C05/raised/scan/AttributeError/handle_timeouts',
